@@ -162,7 +162,7 @@ func (e *dExec) invariant(site string) {
 	}
 }
 
-func (e *dExec) gotNew() string { return hx(e.w.got[e.gotBase:]) }
+func (e *dExec) gotNew() string { return hxl(e.w.got[e.gotBase:]) }
 
 func (e *dExec) step(line string) (out string) {
 	e.lines = append(e.lines, line)
@@ -385,7 +385,7 @@ func (e *dExec) step(line string) (out string) {
 			e.cnt.inc("d.read")
 		}
 		e.invariant(site)
-		return fmt.Sprintf("%s %s", hx(p[:k]), e.state())
+		return fmt.Sprintf("%s %s", hxl(p[:k]), e.state())
 	case "reset":
 		if e.dd {
 			e.w = &scriptWriter{resps: parseResps(ws[1])}
@@ -418,7 +418,7 @@ func (e *dExec) step(line string) (out string) {
 		}
 		e.delivered += len(w.got)
 		e.invariant(site)
-		return fmt.Sprintf("%d %s %s %s", n, errName(err), hx(w.got), e.state())
+		return fmt.Sprintf("%d %s %s %s", n, errName(err), hxl(w.got), e.state())
 	case "flush":
 		err := e.dec.Flush()
 		e.delivered = len(e.w.got)
